@@ -13,7 +13,7 @@ import (
 	"verif/internal/core"
 )
 
-func init() { Registry["C07"] = checkC07 }
+func init() { Registry["C07"] = withErrRules(checkC07, "", "compile") }
 
 func callsNamed(f *ssa.Function, pred func(call ssa.CallInstruction) bool) []ssa.Instruction {
 	var out []ssa.Instruction
@@ -82,6 +82,126 @@ func checkC07(c *core.Ctx, l *core.Ledger) {
 	checkTypeIdentity(c, l, "TYPE-IDENTITY", []string{"compile"})
 	checkIncludeScope(c, l)
 	checkModuleIdentity(c, l, "MODULE-IDENTITY", []string{"compile", "gen", ""})
+	// 0. SPLIT: splitInclude answers "no module part" exactly when the name has no '.' or starts with one
+	if sf := c.SSAFunc(c.LookupFunc("compile", "splitInclude")); sf == nil || len(sf.Params) != 1 {
+		l.Unk("SPLIT", "splitInclude", "", "compile.splitInclude not found")
+	} else {
+		// finite-domain evaluation with the position of the first '.' fixed to -1, 0, 1, 2
+		var why []string
+		idxCalls := 0
+		core.Instrs(sf, func(in ssa.Instruction) {
+			if call, ok := in.(*ssa.Call); ok {
+				if o := core.CalleeObj(call); o != nil && o.Pkg() != nil && o.Pkg().Path() == "strings" && strings.HasPrefix(o.Name(), "Index") {
+					idxCalls++
+				}
+			}
+		})
+		var cut *ssa.Call
+		core.Instrs(sf, func(in ssa.Instruction) {
+			if call, ok := in.(*ssa.Call); ok && core.IsCallTo(call, "strings", "Cut") && len(call.Call.Args) == 2 && call.Call.Args[0] == ssa.Value(sf.Params[0]) {
+				if k, isK := call.Call.Args[1].(*ssa.Const); isK && k.Value != nil && k.Value.ExactString() == `"."` {
+					cut = call
+				}
+			}
+		})
+		if idxCalls == 0 && cut != nil {
+			// the same split written with strings.Cut(name, "."): three worlds — no dot; dot first; dot later
+			for _, w := range []struct {
+				found, empty bool
+				name         string
+			}{{false, true, "no '.'"}, {true, true, "'.' first"}, {true, false, "'.' later"}} {
+				w := w
+				paths, fin := c.FiniteEval(sf, core.FEOpts{Key: func(v ssa.Value) (core.CVal, bool) {
+					if ex, ok := v.(*ssa.Extract); ok && ex.Tuple == ssa.Value(cut) && ex.Index == 2 {
+						return core.CVal{Kind: core.CBool, B: w.found}, true
+					}
+					if bo, ok := v.(*ssa.BinOp); ok && (bo.Op == token.EQL || bo.Op == token.NEQ) {
+						isBefore := func(x ssa.Value) bool {
+							ex, ok := x.(*ssa.Extract)
+							return ok && ex.Tuple == ssa.Value(cut) && ex.Index == 0
+						}
+						emptyTest := false
+						if isBefore(bo.X) {
+							if k, isK := bo.Y.(*ssa.Const); isK && k.Value != nil && k.Value.ExactString() == `""` {
+								emptyTest = true
+							}
+						}
+						if call, isCall := bo.X.(*ssa.Call); isCall {
+							if bi, isB := call.Call.Value.(*ssa.Builtin); isB && bi.Name() == "len" && isBefore(call.Call.Args[0]) {
+								if k, isK := core.ConstInt(bo.Y); isK && k == 0 {
+									emptyTest = true
+								}
+							}
+						}
+						if emptyTest {
+							return core.CVal{Kind: core.CBool, B: w.empty == (bo.Op == token.EQL)}, true
+						}
+					}
+					return core.CVal{}, false
+				}})
+				if !fin || len(paths) != 1 || paths[0].Ret == nil || len(paths[0].Ret.Results) != 2 {
+					why = append(why, w.name+": the outcome is not decided by the position of the dot alone")
+					continue
+				}
+				r := paths[0].Ret
+				noMod := false
+				if k, isK := r.Results[0].(*ssa.Const); isK && k.Value != nil && k.Value.ExactString() == `""` {
+					noMod = r.Results[1] == ssa.Value(sf.Params[0])
+				}
+				e0, ok0 := r.Results[0].(*ssa.Extract)
+				e1, ok1 := r.Results[1].(*ssa.Extract)
+				split := ok0 && ok1 && e0.Tuple == ssa.Value(cut) && e1.Tuple == ssa.Value(cut) && e0.Index == 0 && e1.Index == 1
+				if (!w.found || w.empty) && !noMod {
+					why = append(why, w.name+": must answer (\"\", name)")
+				}
+				if w.found && !w.empty && !split {
+					why = append(why, w.name+": must answer (before, after)")
+				}
+			}
+			l.Check(len(why) == 0, "SPLIT", "splitInclude", c.Rel(sf.Pos()), "strings.Cut form evaluated in three worlds: a module part exactly when a '.' is found after a non-empty prefix", strings.Join(why, "; "))
+		} else {
+			if idxCalls != 1 {
+				why = append(why, fmt.Sprintf("expected one strings.Index* call on the name (found %d)", idxCalls))
+			}
+			for _, pos := range []int64{-1, 0, 1, 2} {
+				pv := pos
+				paths, fin := c.FiniteEval(sf, core.FEOpts{Key: func(v ssa.Value) (core.CVal, bool) {
+					if call, ok := v.(*ssa.Call); ok {
+						if o := core.CalleeObj(call); o != nil && o.Pkg() != nil && o.Pkg().Path() == "strings" && strings.HasPrefix(o.Name(), "Index") {
+							return core.CVal{Kind: core.CInt, I: pv}, true
+						}
+					}
+					return core.CVal{}, false
+				}})
+				if !fin || len(paths) != 1 || paths[0].Ret == nil || len(paths[0].Ret.Results) != 2 {
+					why = append(why, fmt.Sprintf("first '.' at %d: the outcome is not decided by that position alone", pos))
+					continue
+				}
+				r := paths[0].Ret
+				noMod := false
+				if k, isK := r.Results[0].(*ssa.Const); isK && k.Value != nil && k.Value.ExactString() == `""` {
+					noMod = r.Results[1] == ssa.Value(sf.Params[0])
+				}
+				split := false
+				if s0, ok0 := r.Results[0].(*ssa.Slice); ok0 && s0.X == ssa.Value(sf.Params[0]) && s0.Low == nil && s0.High != nil {
+					if s1, ok1 := r.Results[1].(*ssa.Slice); ok1 && s1.X == ssa.Value(sf.Params[0]) && s1.High == nil {
+						if bo, isBo := s1.Low.(*ssa.BinOp); isBo && bo.Op == token.ADD && bo.X == s0.High {
+							if k, isK := core.ConstInt(bo.Y); isK && k == 1 {
+								split = true
+							}
+						}
+					}
+				}
+				switch {
+				case pos <= 0 && !noMod:
+					why = append(why, fmt.Sprintf("first '.' at %d: must answer (\"\", name)", pos))
+				case pos >= 1 && !split:
+					why = append(why, fmt.Sprintf("first '.' at %d: must answer (name[:i], name[i+1:])", pos))
+				}
+			}
+			l.Check(len(why) == 0, "SPLIT", "splitInclude", c.Rel(sf.Pos()), "evaluated for the first '.' at -1, 0, 1, 2: a module part exactly from position 1 on, split around the dot", strings.Join(why, "; "))
+		}
+	}
 	// 1. LOOKUP-ORDER
 	resolvers := []struct{ fn, lookup string }{
 		{"typeSpecReference.Link", "LookupType"},
@@ -169,6 +289,40 @@ func checkC07(c *core.Ctx, l *core.Ledger) {
 					if !core.AllPathsThroughEdges(f, enums[0].Block(), fe) {
 						why = append(why, "the enum-item lookup is reachable without the constant lookup having failed")
 					}
+				}
+			}
+		}
+		// the included scope is consulted exactly when the split found a module part: on the edge where that part is
+		// non-empty (a test against any other length turns one-letter module names into "no module part")
+		if len(splits) >= 1 && len(incl) >= 1 {
+			isModPart := func(v ssa.Value) bool {
+				ex, ok := v.(*ssa.Extract)
+				if !ok || ex.Index != 0 {
+					return false
+				}
+				for _, sp := range splits {
+					if ex.Tuple == sp.(ssa.Value) {
+						return true
+					}
+				}
+				return false
+			}
+			nonEmpty := core.GuardEdges(f, func(cm core.Cmp) bool {
+				if call, isCall := cm.X.(*ssa.Call); isCall {
+					if bi, isB := call.Call.Value.(*ssa.Builtin); isB && bi.Name() == "len" && isModPart(call.Call.Args[0]) {
+						k, isK := core.ConstInt(cm.Y)
+						return isK && ((k == 0 && (cm.Op == token.NEQ || cm.Op == token.GTR)) || (k == 1 && cm.Op == token.GEQ))
+					}
+				}
+				if isModPart(cm.X) && cm.Op == token.NEQ {
+					k, isK := cm.Y.(*ssa.Const)
+					return isK && k.Value != nil && k.Value.ExactString() == `""`
+				}
+				return false
+			})
+			for _, s := range incl {
+				if len(nonEmpty) == 0 || !core.AllPathsThroughEdges(f, s.Block(), nonEmpty) {
+					why = append(why, "the included scope is consulted at "+c.Rel(s.Pos())+" without the module part of the name having been found non-empty")
 				}
 			}
 		}
